@@ -474,7 +474,7 @@ pub fn run(cfg: &Cfg) -> Report {
                             continue;
                         }
                         // with trailing frames in the same burst only cut inside the owed part
-                        let case = Case { kinds: kinds.clone(), replies: replies.clone(), trailing: trailing.clone(), cuts: cuts.clone(), trailing_later, cancel_next: v % 3 == 2, pendings: if v % 3 == 2 { 1 } else { 0 }, history: if rng.chance(1, 2) { 0 } else { rng.range(1, 7) as u8 }, pad: 0, second_chain: false, wpp: 0 };
+                        let case = Case { kinds: kinds.clone(), replies: replies.clone(), trailing: trailing.clone(), cuts: cuts.clone(), trailing_later, cancel_next: v % 3 == 2, pendings: if v % 3 == 2 { 1 } else { 0 }, history: if rng.chance(1, 2) { 0 } else { rng.range(1, 10) as u8 }, pad: 0, second_chain: false, wpp: 0 };
                         let mut case = case;
                         if rng.chance(1, 4) {
                             case.wpp = rng.range(1, 3);
@@ -539,7 +539,7 @@ pub fn run(cfg: &Cfg) -> Report {
             }
             _ => random_cuts(&mut rng, owed_len, 40),
         };
-        let case = Case { kinds, replies, trailing, cuts, trailing_later: rng.chance(1, 2), cancel_next: k % 5 == 4, pendings: if k % 5 == 4 { 1 } else { 0 }, history: if rng.chance(1, 2) { 0 } else { rng.range(1, 7) as u8 }, pad: 0, second_chain: false, wpp: 0 };
+        let case = Case { kinds, replies, trailing, cuts, trailing_later: rng.chance(1, 2), cancel_next: k % 5 == 4, pendings: if k % 5 == 4 { 1 } else { 0 }, history: if rng.chance(1, 2) { 0 } else { rng.range(1, 10) as u8 }, pad: 0, second_chain: false, wpp: 0 };
         let mut case = case;
         if k % 3 == 1 {
             case.wpp = rng.range(1, 3);
@@ -559,7 +559,7 @@ pub fn run(cfg: &Cfg) -> Report {
         let replies = script_for(&kinds, &mut |m| r2.below(m));
         rng = r2;
         let owed_len: usize = replies.iter().map(|r| r.bytes().len()).sum();
-        let case = Case { kinds, replies, trailing: vec![], cuts: random_cuts(&mut rng, owed_len, 3), trailing_later: true, cancel_next: false, pendings: 0, history: if k % 2 == 0 { 0 } else { rng.range(1, 7) as u8 }, pad, second_chain: false, wpp: 0 };
+        let case = Case { kinds, replies, trailing: vec![], cuts: random_cuts(&mut rng, owed_len, 3), trailing_later: true, cancel_next: false, pendings: 0, history: if k % 2 == 0 { 0 } else { rng.range(1, 10) as u8 }, pad, second_chain: false, wpp: 0 };
         rep.count("big_chains");
         rep.max("max_bytes_of_one_chain", case.kinds.len() as u64 * pad as u64);
         check(&case, &mut rep);
